@@ -190,6 +190,13 @@ let handle_engfen line args obs =
            e := fst (eng_takeback !e);
            (match !gstack with x :: r -> g := x; gstack := r | [] -> g := None);
            bump "engfen/takeback"
+         | ["rs"; ctok] ->
+           (* a new set-up on the same engine *)
+           let f = str_of_codes ctok in
+           e := fst (eng_reset zt !e f);
+           g := gstate_of_fen f;
+           gstack := [];
+           bump "engfen/reset"
          | ["mv"; ctok] ->
            let s = str_of_codes ctok in
            e := fst (eng_move zt !e s);
